@@ -1,3 +1,6 @@
+\* negative variant: after its first run the compensator does nothing (a stale 'already within tolerance').
+\* RowsTrue still holds (the row is consistent with the compensator value it records) - TLC must report
+\* RowsCompensated violated: the recorded compensation is not the compensation of the claimed lens.
 SPECIFICATION Spec
 CONSTANTS
   Values <- MCValues
@@ -15,13 +18,8 @@ CONSTANTS
   FinalReset = TRUE
   CompRebases = FALSE
   MaxUser = 0
-  CompSkips = FALSE
+  CompSkips = TRUE
 INVARIANT TypeOK
 INVARIANT RowsTrue
 INVARIANT RowsCompensated
-INVARIANT NominalReproduced
-INVARIANT Reproducible
-INVARIANT EndStateNominal
-INVARIANT HandlesNominal
-PROPERTY ResetRestores
 CHECK_DEADLOCK FALSE
